@@ -281,8 +281,9 @@ def layout_jobs(tier, exhaust=False, asan=False):
     # single threaded: item types of every alignment / with and without drop glue x columns x capacities; exhausted index space
     q = tier != "thorough"
     out = [
-        bx("layout-chk", "layout", "chk", 2, 1000000, 10 if q else 120),
-        bx("layout-rel", "layout", "rel", 1, 1000000, 8 if q else 120),
+        # single threaded, no hooks, plain item types: a crash of these processes is the vector's doing
+        bx("layout-chk", "layout", "chk", 2, 1000000, 10 if q else 120, crash_is_violation=True),
+        bx("layout-rel", "layout", "rel", 1, 1000000, 8 if q else 120, crash_is_violation=True),
         bx("layout-miri", "layout", "miri", 5 if q else 16, 1 if q else 40, 300 if q else 3000, sanitizer=True, miriflags=MIRI_SB, timeout=900 if q else 5000),
     ]
     if asan:
